@@ -397,8 +397,12 @@ def option_overrides(ix):
             continue
         node = f.raw_node
         for c in calls(node):
-            if callee_name(c) == "set_net_option" and len(c.args) >= 2:
-                writes.append((f, c, const_str(c.args[1]) or U(c.args[1])))
+            if callee_name(c) == "set_net_option":
+                sp_ = ix.func(PS + ".set_net_option").params()
+                bound = dict(zip(sp_, c.args))
+                bound.update({k.arg: k.value for k in c.keywords if k.arg})
+                if len(sp_) > 1 and sp_[1] in bound:
+                    writes.append((f, c, const_str(bound[sp_[1]]) or U(bound[sp_[1]])))
         for s_ in ast.walk(node):
             tg = s_.targets if isinstance(s_, ast.Assign) else ([s_.target] if isinstance(s_, ast.AugAssign) else [])
             for t in tg:
@@ -411,7 +415,7 @@ def option_overrides(ix):
                     and callee_name(s_.value) in ("get_net_option", "get_net_options"):
                 t = s_.targets[0]
                 names = [t] if isinstance(t, ast.Name) else (list(t.elts) if isinstance(t, (ast.Tuple, ast.List)) else [])
-                opts_ = [const_str(a) for a in s_.value.args[1:]]
+                opts_ = [const_str(a) for a in s_.value.args[1:]] or [const_str(k.value) for k in s_.value.keywords if k.arg == "option_name"]
                 for k, nm in enumerate(names):
                     if isinstance(nm, ast.Name):
                         n += 1
